@@ -75,6 +75,7 @@ type FnRun struct {
 	parent    *FnRun
 	iters     map[ssa.Value]SliceV
 	loopPhis  map[string]*ssa.Phi
+	loopEntryState *State
 }
 
 type retPoint struct {
